@@ -435,6 +435,10 @@ def template_cells(wkinds=WKINDS):
         ("getitem_str", "{{ V['k'] }}"),
         ("getitem_int", "{{ V[0] }}"),
         ("chain", "{{ V.foo.bar['baz'] }}"),
+        # the |attr filter is attribute access too: same cell as V.foo for every type
+        ("getattr", "{{ V|attr('foo') }}"),
+        ("chain", "{{ V|attr('foo')|attr('bar') }}"),
+        ("chain", "{{ (V|attr('foo')).bar['baz'] }}"),
         ("call0", "{{ V() }}"),
         ("call_args", "{{ V(1, k=2) }}"),
         ("is_defined", "{{ V is defined }}"),
